@@ -9,6 +9,12 @@
 // Every interleaving is explored (2 requests: unbounded at gate granularity + preemption
 // bound 2 at access granularity). Oracle: each response equals the response the same request
 // gets when served alone on a fresh server; plus vector-clock race freedom.
+//
+// Templates: the hand-written ones below plus two generated families (gen.go): "carry" (how a
+// request's value is held between two gates: callable forms x call routes, holders) and "routes"
+// (two route groups with their own onFormat / onError / middleware, requests going to DIFFERENT
+// routes, every pair of handler actions including a throwing one).
+// C11_PROBE=1 prints what every template answers alone; C11_ONLY=<name|prefix*> restricts a run.
 package main
 
 import (
@@ -377,7 +383,10 @@ func exploreOne(w *pool.W, sc scenario) {
 	cfg.Check = func(x *sched.Exec) {
 		st := get()
 		if first && debug {
-			fmt.Fprintf(os.Stderr, "DEBUG %s first schedule: %s\n", sc.String(), strings.Join(x.Schedule(), " "))
+			if f, err := os.OpenFile(os.Getenv("C11_DEBUG"), os.O_APPEND|os.O_CREATE|os.O_WRONLY, 0o644); err == nil {
+				fmt.Fprintf(f, "%s first schedule: %s\n", sc.String(), strings.Join(x.Schedule(), " "))
+				f.Close()
+			}
 		}
 		first = false
 		var os []string
@@ -438,19 +447,22 @@ func scenariosFor(t tmpl, quick bool) []scenario {
 	heavy := strings.Contains(t.Body, "$_")
 	switch {
 	case t.Family == "carry":
-		// 4-6 gates per request. Gate granularity is what shows state parked in shared AST nodes /
-		// callee objects (struct fields are not instrumented accesses); access granularity is run
-		// for the direct route and the holders.
+		// 3-5 gates per request, plus the VM's class-table RLock at every `new` / `::` (a
+		// synchronisation operation is a choice point at gate granularity too): unbounded, two
+		// requests already have 10^5 interleavings for some carriers, hence a preemption bound.
+		// Gate granularity is what shows state parked in shared AST nodes / callee objects (struct
+		// fields are not instrumented accesses); access granularity is run for the direct route
+		// and the holders.
 		if quick {
-			add(2, -1, true)
+			add(2, 3, true)
 			add(3, 1, true)
 			if !t.Light {
 				add(2, 1, false)
 			}
 		} else {
-			add(2, -1, true)
-			add(3, 3, true)
-			add(2, 3, false)
+			add(2, 6, true)
+			add(3, 2, true)
+			add(2, 2, false)
 			add(3, 1, false)
 		}
 	case t.Family == "routes":
@@ -463,9 +475,11 @@ func scenariosFor(t tmpl, quick bool) []scenario {
 			}
 		} else {
 			add(2, -1, true)
-			add(3, -1, true)
+			add(3, 2, true)
 			add(2, 2, false)
-			add(3, 1, false)
+			if !t.Light {
+				add(3, 1, false)
+			}
 		}
 	case quick && heavy:
 		add(2, 1, true)
